@@ -53,7 +53,9 @@ Base == [camel |-> FALSE, query |-> "Query", mutation |-> "", subscription |-> "
        fields |-> << ArgD(<<"min", "size">>, Named("Int"), "min_size", [k |-> "int", v |-> "1"]), Arg(<<"tags">>, ListOf(Named("String")), "tags"),
                      Arg(<<"min", "level">>, Named("Level"), "min_level") >>],
     [k |-> "object", name |-> "Sub", ifaces |-> <<>>, desc |-> "", dres |-> "", rt |-> "",
-       fields |-> << Fld(<<"item", "added">>, Named("Item"), <<>>, "item_added", "r_sub", "") >>] >>,
+       \* a subscription field (resolver id r_sub: the harness also installs the subscription resolver sub_r_sub) WITH an argument:
+       \* transforms that rewrite the argument rebuild the field and must keep both resolvers
+       fields |-> << Fld(<<"item", "added">>, Named("Item"), <<Arg(<<"min", "level">>, Named("Level"), "min_level")>>, "item_added", "r_sub", "") >>] >>,
   directives |-> << [name |-> "my_dir", locs |-> <<"FIELD">>, args |-> <<Arg(<<"some", "arg">>, Named("Int"), "some_arg")>>] >>]
 
 RECURSIVE Inner(_)
@@ -65,7 +67,7 @@ Known(s, n) == n \in Builtin \/ n \in TypeNames(s)
 
 \* ---- visibility ---------------------------------------------------------------------------------------------------
 Preds == { [p |-> "type", t |-> "Person", f |-> <<>>], [p |-> "type", t |-> "Level", f |-> <<>>], [p |-> "type", t |-> "Filter", f |-> <<>>],
-           [p |-> "type", t |-> "U", f |-> <<>>], [p |-> "type", t |-> "Node", f |-> <<>>],
+           [p |-> "type", t |-> "U", f |-> <<>>], [p |-> "type", t |-> "Node", f |-> <<>>], [p |-> "type", t |-> "Sub", f |-> <<>>],
            [p |-> "field", t |-> "Query", f |-> <<"find", "items">>], [p |-> "field", t |-> "Item", f |-> <<"owner">>],
            [p |-> "field", t |-> "Node", f |-> <<"node", "id">>],
            [p |-> "input", t |-> "Filter", f |-> <<"min", "size">>], [p |-> "directive", t |-> "my_dir", f |-> <<>>] }
@@ -83,7 +85,9 @@ HideType(p, t) ==
     [] t.k = "union" -> [t EXCEPT !.members = SelectSeq(@, LAMBDA n : ~HiddenType(p, n))]
     [] t.k = "input" -> [t EXCEPT !.fields = SelectSeq(@, LAMBDA a : InputVisible(p, t.name, a))]
     [] OTHER -> t
-Hide(s, p) == [s EXCEPT !.types = [i \in 1..Len(SelectSeq(s.types, LAMBDA t : ~HiddenType(p, t.name))) |->
+Hide(s, p) == [s EXCEPT !.subscription = IF HiddenType(p, @) THEN "" ELSE @,      \* a hidden root type is no longer a root
+                        !.mutation = IF HiddenType(p, @) THEN "" ELSE @,
+                        !.types = [i \in 1..Len(SelectSeq(s.types, LAMBDA t : ~HiddenType(p, t.name))) |->
                                       HideType(p, SelectSeq(s.types, LAMBDA t : ~HiddenType(p, t.name))[i])],
                         !.directives = SelectSeq([i \in 1..Len(@) |-> [@[i] EXCEPT !.args = SelectSeq(@, LAMBDA a : ArgVisible(p, a))]],
                                                  LAMBDA d : ~(p.p = "directive" /\ p.t = d.name))]
